@@ -60,3 +60,50 @@ for _m in ("specs_vec", "specs_str", "specs_box", "specs_borrow", "specs_threads
         SPECS.update(__import__(_m).SPECS)
     except ImportError:
         pass
+
+# ---------------------------------------------------------------------------------------------
+# composite properties (several families); PARTS are run by tools/families/multi.py
+# ---------------------------------------------------------------------------------------------
+import copy as _copy
+PARTS = {}
+
+
+def _part(key, spec, **over):
+    d = _copy.deepcopy(spec)
+    d.update(over)
+    PARTS[key] = d
+
+
+try:
+    import specs_vec as _v, specs_box as _b, specs_str as _s
+    _part("C15V", _v.SPECS["C15"])
+    _part("C16V", _v.SPECS["C16"])
+    _part("C15B", _b.SPECS["C15B"])
+    _part("C16B", _b.SPECS["C16B"])
+    _part("C16S", _s.SPECS["C16S"])
+    # Vec/RawVec parts of C18 (reserve then push without moving, amortised growth) and C19 (capacity overflow):
+    # the vec family's growth / bounds profiles with the capacity field compared against the RawVec model
+    _part("C18V", _v.SPECS["C13"], profiles=[("growth", 900, 45), ("general", 300, 45)], fields=["cap", "len", "res"],
+          quick_release=[], partial=[])
+    _part("C19V", _v.SPECS["C13"], profiles=[("bounds", 900, 45), ("growth", 300, 45)], fields=["res", "cap", "len"],
+          partial=[])
+    _part("C18A", SPECS["C18"])
+    _part("C19A", SPECS["C19"])
+    _part("C16A", arena("BumpVerif.Props.C16A", [("panics", 600, 40, "some")], ["res", "cap", "chunks", "it", "evt"],
+                        ["pfill", "patw", "alloc"], ops=["pfill", "patw"]))
+    _part("C15A", arena("BumpVerif.Props.C16A", [("panics", 300, 40, "none"), ("resets", 200, 40, "none")], ["res", "evt"],
+                        ["pfill", "patw", "reset", "drop"], ops=["pfill", "reset", "drop"]))
+    # C13 stays the vec family's own spec; its pure growth-policy field belongs to C18
+    SPECS["C13"] = _copy.deepcopy(_v.SPECS["C13"])
+    SPECS["C15"] = dict(family="multi", level="proof", parts=["C15V", "C15B", "C15A"],
+                        lean_modules=["BumpVerif.Props.C15", "BumpVerif.Props.C17", "BumpVerif.Props.C16A"],
+                        drivers=["Driver.VecMain", "Driver.BoxMain", "Driver.Main"])
+    SPECS["C16"] = dict(family="multi", level="proof", parts=["C16V", "C16S", "C16B", "C16A"],
+                        lean_modules=["BumpVerif.Props.C16", "BumpVerif.Proofs.StrPanic", "BumpVerif.Props.C17", "BumpVerif.Props.C16A"],
+                        drivers=["Driver.VecMain", "Driver.StrMain", "Driver.BoxMain", "Driver.Main"])
+    SPECS["C18"] = dict(family="multi", level="proof", parts=["C18A", "C18V"],
+                        lean_modules=["BumpVerif.Props.C18", "BumpVerif.Props.C13"], drivers=["Driver.Main", "Driver.VecMain"])
+    SPECS["C19"] = dict(family="multi", level="proof", parts=["C19A", "C19V"],
+                        lean_modules=["BumpVerif.Props.C19", "BumpVerif.Props.C13"], drivers=["Driver.Main", "Driver.VecMain"])
+except ImportError:
+    pass
